@@ -443,6 +443,272 @@ theorem decodeBlocks_ok (f : List Nat → Option (Value × List Nat)) (e : Value
     rw [decodeItems_ok f e vs h]
     simp [decodeBlocks, decodeLong_encodeLong]
 
+/-! ### Avro decimal payloads -/
+
+set_option maxRecDepth 100000 in
+theorem and128_zero_iff : ∀ x, x < 256 → ((x &&& 128 = 0) ↔ x < 128) := by decide
+set_option maxRecDepth 100000 in
+theorem xor255_and128 : ∀ x, x < 256 → (((x ^^^ 255) &&& 128 = 0) ↔ 128 ≤ x) := by decide
+set_option maxRecDepth 100000 in
+theorem xor0_and128 : ∀ x, x < 256 → (((x ^^^ 0) &&& 128 = 0) ↔ x < 128) := by decide
+
+/-- the sign byte `0x00` / `0xFF` that belongs to a first byte -/
+def signOf (b : Nat) : Nat := if 128 ≤ b then 255 else 0
+
+theorem signOf_cases (b : Nat) : signOf b = 0 ∨ signOf b = 255 := by unfold signOf; split <;> simp
+
+/-- `((x ^ s) & 0x80) == 0` says: `x` carries the same sign bit as the sign byte `s` -/
+theorem same_sign_iff (x b : Nat) (hx : x < 256) :
+    (((x ^^^ signOf b) &&& 128 = 0) ↔ signOf x = signOf b) := by
+  unfold signOf
+  by_cases hb : 128 ≤ b
+  · simp only [hb, if_true]
+    rw [xor255_and128 x hx]
+    by_cases h : 128 ≤ x <;> simp [h]
+  · simp only [hb, if_false]
+    rw [xor0_and128 x hx]
+    by_cases h : 128 ≤ x <;> simp [h] <;> omega
+
+theorem getD_eq (l : List Nat) (k : Nat) (h : k < l.length) : l.getD k 0 = l[k] := by
+  rw [List.getD_eq_getElem?_getD, List.getElem?_eq_getElem h]; rfl
+
+theorem countLeading_le (s : Nat) (be : List Nat) : countLeading s be ≤ be.length := by
+  induction be with
+  | nil => simp [countLeading]
+  | cons b bs ih => simp only [countLeading]; split <;> simp <;> omega
+
+theorem take_countLeading (s : Nat) (be : List Nat) :
+    be.take (countLeading s be) = List.replicate (countLeading s be) s := by
+  induction be with
+  | nil => simp [countLeading]
+  | cons b bs ih =>
+    simp only [countLeading]
+    split
+    · rename_i h; subst h; simp [List.replicate_succ, ih]
+    · simp
+
+theorem take_le_countLeading (s : Nat) (be : List Nat) (j : Nat) (hj : j ≤ countLeading s be) :
+    be.take j = List.replicate j s := by
+  have h := take_countLeading s be
+  have : be.take j = (be.take (countLeading s be)).take j := by
+    rw [List.take_take, Nat.min_eq_left hj]
+  rw [this, h, List.take_replicate, Nat.min_eq_left hj]
+
+theorem getD_countLeading_ne (s : Nat) (be : List Nat) (h : countLeading s be < be.length) :
+    be.getD (countLeading s be) 0 ≠ s := by
+  induction be with
+  | nil => simp at h
+  | cons b bs ih =>
+    simp only [countLeading] at h ⊢
+    split
+    · rename_i hb
+      simp only [hb, if_true, List.length_cons] at h
+      simpa using ih (by omega)
+    · rename_i hb; simpa using hb
+
+/-- shape of the writer's output: a suffix of `be` obtained by dropping redundant sign bytes only -/
+theorem minimal_shape (b0 : Nat) (bs : List Nat) (hall : ∀ b ∈ b0 :: bs, b < 256) :
+    ∃ d, minimalTwosComplement (b0 :: bs) = (b0 :: bs).drop d ∧ d < (b0 :: bs).length ∧
+      (b0 :: bs).take d = List.replicate d (signOf b0) ∧
+      ∃ h t, (b0 :: bs).drop d = h :: t ∧ signOf h = signOf b0 := by
+  have hb0 : b0 < 256 := hall b0 (by simp)
+  have hs : (if b0 &&& M_SIGN_MASK ≠ 0 then M_NEG_BYTE else M_POS_BYTE) = signOf b0 := by
+    unfold signOf
+    have := and128_zero_iff b0 hb0
+    show (if b0 &&& 128 ≠ 0 then 255 else 0) = _
+    by_cases h : 128 ≤ b0
+    · have : ¬ (b0 &&& 128 = 0) := fun h0 => by have := (and128_zero_iff b0 hb0).1 h0; omega
+      simp [h, this]
+    · have : b0 &&& 128 = 0 := (and128_zero_iff b0 hb0).2 (by omega)
+      simp [h, this]
+  unfold minimalTwosComplement
+  simp only [hs]
+  generalize hk : countLeading (signOf b0) (b0 :: bs) = k
+  have hle := countLeading_le (signOf b0) (b0 :: bs)
+  rw [hk] at hle
+  by_cases hk0 : k = 0
+  · rw [if_pos hk0]
+    exact ⟨0, rfl, by simp, by simp, b0, bs, rfl, rfl⟩
+  · rw [if_neg hk0]
+    by_cases hkl : k = (b0 :: bs).length
+    · rw [if_pos hkl]
+      refine ⟨(b0 :: bs).length - 1, rfl, by simp, ?_, ?_⟩
+      · exact take_le_countLeading _ _ _ (by rw [hk]; omega)
+      · -- the last byte is a sign byte
+        have hall' := take_countLeading (signOf b0) (b0 :: bs)
+        rw [hk, hkl, List.take_length] at hall'
+        have hlen : (b0 :: bs).length - 1 < (b0 :: bs).length := by simp
+        obtain ⟨h, t, hd⟩ : ∃ h t, (b0 :: bs).drop ((b0 :: bs).length - 1) = h :: t :=
+          ⟨_, _, List.drop_eq_getElem_cons hlen⟩
+        refine ⟨h, t, hd, ?_⟩
+        have hmem : h ∈ (b0 :: bs) := List.mem_of_mem_drop (by rw [hd]; simp)
+        rw [hall'] at hmem
+        have := List.eq_of_mem_replicate hmem
+        rw [this]
+        rcases signOf_cases b0 with h0 | h0 <;> rw [h0] <;> simp [signOf]
+    · rw [if_neg hkl]
+      have hklt : k < (b0 :: bs).length := by omega
+      have hne := getD_countLeading_ne (signOf b0) (b0 :: bs) (by rw [hk]; exact hklt)
+      rw [hk] at hne
+      have hxk : (b0 :: bs).getD k 0 < 256 := by
+        rw [getD_eq _ _ hklt]
+        exact hall _ (List.getElem_mem _)
+      have hmask : M_DROP_MASK = 128 := rfl
+      rw [hmask]
+      by_cases hsame : ((b0 :: bs).getD k 0 ^^^ signOf b0) &&& 128 = 0
+      · rw [if_pos hsame]
+        refine ⟨k, rfl, hklt, take_le_countLeading _ _ _ (by rw [hk]; exact Nat.le_refl _), ?_⟩
+        refine ⟨(b0 :: bs).getD k 0, (b0 :: bs).drop (k + 1), ?_, (same_sign_iff _ b0 hxk).1 hsame⟩
+        rw [getD_eq _ _ hklt]
+        exact List.drop_eq_getElem_cons hklt
+      · rw [if_neg hsame]
+        have hk1 : k - 1 < (b0 :: bs).length := by omega
+        refine ⟨k - 1, rfl, hk1, take_le_countLeading _ _ _ (by rw [hk]; omega), ?_⟩
+        refine ⟨(b0 :: bs)[k - 1], (b0 :: bs).drop (k - 1 + 1), List.drop_eq_getElem_cons hk1, ?_⟩
+        -- byte k-1 is a sign byte
+        have ht := take_le_countLeading (signOf b0) (b0 :: bs) k (by rw [hk]; exact Nat.le_refl _)
+        have hmem : (b0 :: bs)[k - 1] ∈ (b0 :: bs).take k := by
+          rw [List.mem_take_iff_getElem]
+          exact ⟨k - 1, by omega, rfl⟩
+        rw [ht] at hmem
+        rw [List.eq_of_mem_replicate hmem]
+        rcases signOf_cases b0 with h0 | h0 <;> rw [h0] <;> simp [signOf]
+
+/-- the reader's sign extension restores the dropped bytes -/
+theorem signCast_drop (be : List Nat) (N d : Nat) (s h : Nat) (t : List Nat) (hlen : be.length = N)
+    (hd : d < N) (htake : be.take d = List.replicate d s) (hdrop : be.drop d = h :: t)
+    (hh : h < 256) (hs : signOf h = s) : signCast N (be.drop d) = some be := by
+  unfold signCast
+  by_cases hd0 : d = 0
+  · subst hd0; simp [hlen]
+  · have hl : (be.drop d).length = N - d := by simp [hlen]
+    have hne : ¬ ((be.drop d).length = N) := by omega
+    have hng : ¬ ((be.drop d).length > N) := by omega
+    simp only [hne, if_false, hng]
+    rw [hdrop] at hl ⊢
+    show some (List.replicate (N - (h :: t).length) (if h &&& S_SIGN_MASK = 0 then 0x00 else S_NEG_BYTE) ++ h :: t) = some be
+    have hsb : (if h &&& S_SIGN_MASK = 0 then 0x00 else S_NEG_BYTE) = s := by
+      rw [← hs]; unfold signOf
+      show (if h &&& 128 = 0 then 0 else 255) = _
+      have := and128_zero_iff h hh
+      by_cases h128 : 128 ≤ h
+      · have : ¬ (h &&& 128 = 0) := fun h0 => by have := (and128_zero_iff h hh).1 h0; omega
+        simp [h128, this]
+      · have : h &&& 128 = 0 := (and128_zero_iff h hh).2 (by omega)
+        simp [h128, this]
+    rw [hsb, hl]
+    have : N - (N - d) = d := by omega
+    rw [this, ← htake, ← hdrop, List.take_append_drop]
+
+/-- **bytes-backed decimal payload round trip** at the byte level -/
+theorem signCast_minimal (be : List Nat) (N : Nat) (hlen : be.length = N) (hN : 1 ≤ N)
+    (hall : ∀ b ∈ be, b < 256) : signCast N (minimalTwosComplement be) = some be := by
+  cases be with
+  | nil => simp at hlen; omega
+  | cons b0 bs =>
+    obtain ⟨d, hm, hd, htake, h, t, hdrop, hs⟩ := minimal_shape b0 bs hall
+    rw [hm]
+    have hh : h < 256 := hall h (List.mem_of_mem_drop (by rw [hdrop]; simp))
+    exact signCast_drop (b0 :: bs) N d (signOf b0) h t hlen (by omega) htake hdrop hh hs
+
+theorem all_eq_replicate (l : List Nat) (s : Nat) (h : l.any (· != s) = false) : l = List.replicate l.length s := by
+  induction l with
+  | nil => rfl
+  | cons a l ih =>
+    simp only [List.any_cons, Bool.or_eq_false_iff, bne_eq_false_iff_eq] at h
+    rw [List.length_cons, List.replicate_succ, ← ih h.2, h.1]
+
+theorem signOf_signOf (b : Nat) : signOf (signOf b) = signOf b := by
+  rcases signOf_cases b with h | h <;> rw [h] <;> simp [signOf]
+
+/-- **fixed(n)-backed decimal payload round trip** at the byte level: whatever
+`write_sign_extended` accepts, `sign_cast_to` turns back into the original `N` bytes -/
+theorem signCast_writeSignExtended (be out : List Nat) (N n : Nat) (hlen : be.length = N) (hN : 1 ≤ N)
+    (hn : 1 ≤ n) (hall : ∀ b ∈ be, b < 256) (hw : writeSignExtended be n = some out) :
+    out.length = n ∧ signCast N out = some be := by
+  cases be with
+  | nil => simp at hlen; omega
+  | cons b0 bs =>
+    have hb0 : b0 < 256 := hall b0 (by simp)
+    have hL : (b0 :: bs).length = bs.length + 1 := rfl
+    have hs : (if (b0 :: bs).length > 0 ∧ (b0 :: bs).headD 0 &&& X_SIGN_MASK ≠ 0 then 0xFF else 0x00) = signOf b0 := by
+      unfold signOf
+      show (if (b0 :: bs).length > 0 ∧ b0 &&& 128 ≠ 0 then 255 else 0) = _
+      by_cases h : 128 ≤ b0
+      · have : ¬ (b0 &&& 128 = 0) := fun h0 => by have := (and128_zero_iff b0 hb0).1 h0; omega
+        simp [h, this]
+      · have : b0 &&& 128 = 0 := (and128_zero_iff b0 hb0).2 (by omega)
+        simp [h, this]
+    unfold writeSignExtended at hw
+    simp only [hs] at hw
+    by_cases h1 : (b0 :: bs).length = n
+    · rw [if_pos h1] at hw
+      injection hw with hw; subst hw
+      refine ⟨h1, ?_⟩
+      unfold signCast; rw [if_pos hlen]
+    · rw [if_neg h1] at hw
+      by_cases h2 : (b0 :: bs).length > n
+      · rw [if_pos h2] at hw
+        have hn0 : ¬ (n = 0 ∧ (b0 :: bs).all (· == signOf b0) = true) := by omega
+        rw [if_neg hn0] at hw
+        split at hw
+        · exact absurd hw (by simp)
+        · rename_i hok
+          injection hw with hw; subst hw
+          have hok' := not_or.1 hok
+          have hany : ((b0 :: bs).take ((b0 :: bs).length - n)).any (· != signOf b0) = false := by
+            simpa using hok'.1
+          have hmsb : (((b0 :: bs).getD ((b0 :: bs).length - n) 0 ^^^ signOf b0) &&& 128) = 0 := by
+            have := hok'.2; simpa [X_TRUNC_MASK] using this
+          have hd : (b0 :: bs).length - n < (b0 :: bs).length := by omega
+          have htake := all_eq_replicate _ _ hany
+          rw [List.length_take, Nat.min_eq_left (by omega)] at htake
+          have hx : (b0 :: bs).getD ((b0 :: bs).length - n) 0 = (b0 :: bs)[(b0 :: bs).length - n] := getD_eq _ _ hd
+          have hxlt : (b0 :: bs)[(b0 :: bs).length - n] < 256 := hall _ (List.getElem_mem _)
+          rw [hx] at hmsb
+          refine ⟨by simp; omega, ?_⟩
+          exact signCast_drop (b0 :: bs) N ((b0 :: bs).length - n) (signOf b0) _ _ hlen (by omega) htake
+            (List.drop_eq_getElem_cons hd) hxlt ((same_sign_iff _ b0 hxlt).1 hmsb)
+      · rw [if_neg h2] at hw
+        injection hw with hw; subst hw
+        have hgt : n > N := by omega
+        refine ⟨by simp; omega, ?_⟩
+        unfold signCast
+        have hl : (List.replicate (n - (b0 :: bs).length) (signOf b0) ++ b0 :: bs).length = n := by simp; omega
+        have e1 : ¬ ((List.replicate (n - (b0 :: bs).length) (signOf b0) ++ b0 :: bs).length = N) := by omega
+        have e2 : (List.replicate (n - (b0 :: bs).length) (signOf b0) ++ b0 :: bs).length > N := by omega
+        rw [if_neg e1, if_pos e2]
+        obtain ⟨j, hj⟩ : ∃ j, n - (b0 :: bs).length = j + 1 := ⟨n - (b0 :: bs).length - 1, by omega⟩
+        have hfirst : (List.replicate (n - (b0 :: bs).length) (signOf b0) ++ b0 :: bs).headD 0 = signOf b0 := by
+          rw [hj]; simp [List.replicate_succ]
+        have hsb : (if (List.replicate (n - (b0 :: bs).length) (signOf b0) ++ b0 :: bs).headD 0 &&& S_SIGN_MASK = 0 then 0x00 else S_NEG_BYTE) = signOf b0 := by
+          rw [hfirst]
+          rcases signOf_cases b0 with h0 | h0 <;> rw [h0] <;> decide
+        simp only [hsb, hl]
+        have hex : n - N = n - (b0 :: bs).length := by omega
+        have t1 : (List.replicate (n - (b0 :: bs).length) (signOf b0) ++ b0 :: bs).take (n - N) =
+            List.replicate (n - (b0 :: bs).length) (signOf b0) := by
+          rw [hex]; exact List.take_left' (by simp)
+        have t2 : (List.replicate (n - (b0 :: bs).length) (signOf b0) ++ b0 :: bs).drop (n - N) = b0 :: bs := by
+          rw [hex]; exact List.drop_left' (by simp)
+        have t3 : (List.replicate (n - (b0 :: bs).length) (signOf b0) ++ b0 :: bs).getD (n - N) 0 = b0 := by
+          rw [hex, List.getD_eq_getElem?_getD, List.getElem?_append_right (by simp)]; simp
+        rw [t1, t2, t3]
+        have a1 : (List.replicate (n - (b0 :: bs).length) (signOf b0)).any (· != signOf b0) = false := by
+          simp [List.any_replicate]
+        have a2 : ¬ (N > 0 ∧ ((b0 ^^^ signOf b0) &&& S_TRUNC_MASK) ≠ 0) := by
+          have : (b0 ^^^ signOf b0) &&& 128 = 0 := (same_sign_iff b0 b0 hb0).2 rfl
+          intro ⟨_, h⟩; exact h this
+        simp [a1, a2]
+
+theorem minimal_length_le (be : List Nat) (hall : ∀ b ∈ be, b < 256) :
+    (minimalTwosComplement be).length ≤ be.length := by
+  cases be with
+  | nil => simp [minimalTwosComplement]
+  | cons b0 bs =>
+    obtain ⟨d, hm, _, _, _⟩ := minimal_shape b0 bs hall
+    rw [hm]; simp
+
 mutual
 theorem decode_encode : (s : Schema) → (v : Value) → wt s v = true → ∀ rest,
     decode s (encode s v ++ rest) = some (v, rest)
@@ -479,6 +745,27 @@ theorem decode_encode : (s : Schema) → (v : Value) → wt s v = true → ∀ r
       simp only [wt, decide_eq_true_eq] at h
       subst h
       simp [encode, decode, getFixed_append]
+  | .decimal Option.none w, .dec be, h, rest => by
+      simp only [wt, Bool.and_eq_true, decide_eq_true_eq, List.all_eq_true] at h
+      obtain ⟨⟨⟨h1, h2⟩, h3⟩, h4⟩ := h
+      have hlenm : (minimalTwosComplement be).length < 2 ^ 63 :=
+        Nat.lt_of_le_of_lt (minimal_length_le be h4) (by omega)
+      simp only [encode, decode, List.append_assoc]
+      rw [getBytes_ok _ rest hlenm]
+      simp only
+      rw [signCast_minimal be w h1 h2 h4]
+      simp
+  | .decimal (Option.some n) w, .dec be, h, rest => by
+      simp only [wt, Bool.and_eq_true, decide_eq_true_eq, List.all_eq_true] at h
+      obtain ⟨⟨⟨⟨h1, h2⟩, h3⟩, h4⟩, h5⟩ := h
+      cases hw : writeSignExtended be n with
+      | none => simp [hw] at h5
+      | some out =>
+        obtain ⟨hl, hsc⟩ := signCast_writeSignExtended be out w n h1 h2 h3 h4 hw
+        have hg := getFixed_append out rest
+        rw [hl] at hg
+        simp only [encode, decode, hw, Option.getD_some, hg, hsc]
+        simp
   | .nullable nf s, .none, _, rest => by
       cases nf <;> simp [encode, decode, branchByte, readVlq, readVarint, W_BRANCH_A, W_BRANCH_B, R_FAST_LIMIT]
   | .nullable nf s, .some v, h, rest => by
@@ -566,6 +853,8 @@ theorem decode_encode : (s : Schema) → (v : Value) → wt s v = true → ∀ r
   | .array _, .null, h, _ | .array _, .bool _, h, _ | .array _, .int _, h, _ | .array _, .long _, h, _
   | .array _, .float _, h, _ | .array _, .double _, h, _ | .array _, .bytes _, h, _ | .array _, .fixed _, h, _
   | .array _, .none, h, _ | .array _, .some _, h, _ | .array _, .union _ _, h, _ => by simp [wt] at h
+  | .null, .dec _, h, _ | .boolean, .dec _, h, _ | .int, .dec _, h, _ | .enum _, .dec _, h, _ | .long, .dec _, h, _ | .float, .dec _, h, _ | .double, .dec _, h, _ | .bytes, .dec _, h, _ | .string, .dec _, h, _ | .fixed _, .dec _, h, _ | .nullable _ _, .dec _, h, _ | .union _, .dec _, h, _ | .record _, .dec _, h, _ | .array _, .dec _, h, _ => by simp [wt] at h
+  | .decimal _ _, .null, h, _ | .decimal _ _, .bool _, h, _ | .decimal _ _, .int _, h, _ | .decimal _ _, .long _, h, _ | .decimal _ _, .float _, h, _ | .decimal _ _, .double _, h, _ | .decimal _ _, .bytes _, h, _ | .decimal _ _, .fixed _, h, _ | .decimal _ _, .none, h, _ | .decimal _ _, .some _, h, _ | .decimal _ _, .union _ _, h, _ | .decimal _ _, .list _, h, _ => by simp [wt] at h
 theorem decodeFields_encodeFields : (fs : List Schema) → (vs : List Value) → wtFields fs vs = true → ∀ rest,
     decodeFields fs (encodeFields fs vs ++ rest) = some (vs, rest)
   | [], [], _, rest => by simp [encodeFields, decodeFields]
